@@ -49,6 +49,10 @@ func (v *Val) wire(b *strings.Builder) {
 		}
 	case "n":
 		b.WriteString("n ")
+	case "g":
+		b.WriteString("g " + hxs(v.S) + " ")
+	case "N":
+		b.WriteString("N ")
 	case "p":
 		b.WriteString("p ")
 		v.P.wire(b)
@@ -74,6 +78,40 @@ func (v *Val) Wire() string {
 	var b strings.Builder
 	v.wire(&b)
 	return strings.TrimSpace(b.String())
+}
+
+// values whose reflect.Kind is numeric or bool but which print arbitrary text: a named int with String(), a named uint64
+// with Error(), a named float64 with String(). The text is kept in a registry keyed by the value.
+type hInt int
+type hUint uint64
+type hFloat float64
+
+var hIntText = map[hInt]string{}
+var hFloatText = map[hFloat]string{}
+var hUintText = map[hUint]string{}
+
+func (h hInt) String() string   { return hIntText[h] }
+func (h hFloat) String() string { return hFloatText[h] }
+func (h hUint) Error() string   { return hUintText[h] }
+
+func stringerValue(s string) interface{} {
+	n := 1
+	for _, c := range []byte(s) {
+		n = (n*131 + int(c)) % 1000003
+	}
+	if n == 0 {
+		n = 7
+	}
+	switch n % 3 {
+	case 0:
+		hIntText[hInt(n)] = s
+		return hInt(n)
+	case 1:
+		hFloatText[hFloat(n)] = s
+		return hFloat(n)
+	}
+	hUintText[hUint(n)] = s
+	return hUint(n)
 }
 
 func safeValue(tag, s string) interface{} {
@@ -110,6 +148,10 @@ func (v *Val) Go() interface{} {
 		return v.B
 	case "n":
 		return nil
+	case "g":
+		return stringerValue(v.S)
+	case "N":
+		return (*string)(nil)
 	case "p":
 		inner := v.P.Go()
 		p := reflect.New(reflect.TypeOf(inner))
@@ -157,6 +199,11 @@ func parseValWire(toks []string) (*Val, []string, error) {
 		return &Val{Kind: "b", B: toks[1] == "1"}, toks[2:], nil
 	case "n":
 		return &Val{Kind: "n"}, toks[1:], nil
+	case "g":
+		s, err := unhex(toks[1])
+		return &Val{Kind: "g", S: s}, toks[2:], err
+	case "N":
+		return &Val{Kind: "N"}, toks[1:], nil
 	case "p":
 		in, rest, err := parseValWire(toks[1:])
 		return &Val{Kind: "p", P: in}, rest, err
